@@ -793,3 +793,187 @@ fn options_of_the_slot_map_client_are_checked() {
     o.fns.push("SlotUnion::f".into());
     assert!(translate(SM, &o).unwrap_err().0.contains("function `SlotUnion::f` not found"));
 }
+
+// ------------------------------------------------------------------------------------------------ sparse-map shaped code
+
+const SP: &str = r#"
+pub(crate) struct SP<K, V> { sparse: Vec<K>, dense: Vec<V>, indices: Vec<K> }
+#[allow(dead_code)]
+impl<K: SparseIndex, V> SP<K, V> {
+    pub(crate) fn get(&self, key: K) -> Option<&V> {
+        let idx = self.sparse.get(key.index())?.index();
+        if idx >= K::MAX.index() {
+            None
+        } else {
+            let value = unsafe { self.dense.get_unchecked(idx) };
+            Some(value)
+        }
+    }
+    pub(crate) fn insert(&mut self, key: K, value: V) -> Option<V> {
+        let sparse_idx = key.index();
+        assert_ne!(
+            sparse_idx,
+            K::MAX.index(),
+            "cannot insert"
+        );
+        if sparse_idx >= self.sparse.len() {
+            self.sparse.resize(sparse_idx + 1, K::MAX);
+        }
+        let dense_len = self.dense.len();
+        let dense_idx = unsafe { self.sparse.get_unchecked_mut(sparse_idx) };
+        if dense_idx.index() == K::MAX.index() {
+            *dense_idx = K::from_index(dense_len);
+            self.dense.push(value);
+            self.indices.push(key);
+            None
+        } else {
+            let idx = dense_idx.index();
+            let v = unsafe { self.dense.get_unchecked_mut(idx) };
+            Some(mem::replace(v, value))
+        }
+    }
+    pub(crate) fn remove(&mut self, key: K) -> Option<V> {
+        let dense_idx = mem::replace(self.sparse.get_mut(key.index())?, K::MAX).index();
+        if dense_idx == K::MAX.index() {
+            None
+        } else {
+            unsafe { assume_unchecked(dense_idx < self.dense.len()) };
+            let res = self.dense.swap_remove(dense_idx);
+            self.indices.swap_remove(dense_idx);
+            if let Some(&moved_index) = self.indices.get(dense_idx) {
+                *unsafe { self.sparse.get_unchecked_mut(moved_index.index()) } = K::from_index(dense_idx);
+            }
+            Some(res)
+        }
+    }
+    fn deref_foreign(&mut self, p: K) { *p = K::MAX; }
+    fn borrow_foreign_vec(&self, i: usize) -> Option<K> { let x = self.sparse.get_mut(i)?; Some(*x) }
+    fn shrink(&mut self) { self.dense.shrink_to_fit(); }
+    fn trait_fn_not_given(&self, key: K) -> usize { key.other() }
+    fn replace_local(&mut self, key: K) -> K { mem::replace(key, K::MAX) }
+}
+"#;
+
+fn sp_opts(fns: &[&str]) -> Options {
+    let p = |a: &str, b: &str| (a.to_string(), b.to_string());
+    Options {
+        impl_type: "SP".into(),
+        fns: fns.iter().map(|s| s.to_string()).collect(),
+        type_map: vec![p("SP", "SP ν"), p("K", "Nat"), p("V", "ν")],
+        tyvars: vec!["ν".into()],
+        prims: vec![p("K::index(self) -> usize", "_"), p("K::from_index(usize) -> K", "_"), p("K::MAX: K", "MAXK")],
+        source_label: "sp.rs".into(),
+        ..Default::default()
+    }
+}
+
+fn sp_ok(f: &str) -> String {
+    let out = translate(SP, &sp_opts(&[f])).unwrap_or_else(|e| panic!("{f}: {e}"));
+    body_of(&out, f)
+}
+
+fn sp_rejected(f: &str, needle: &str) {
+    match translate(SP, &sp_opts(&[f])) {
+        Ok(o) => panic!("{f} was translated:\n{o}"),
+        Err(e) => assert!(e.0.contains(needle), "{f}: message `{}` does not mention `{needle}`", e.0),
+    }
+}
+
+#[test]
+fn unchecked_lookup_and_question_mark_inside_a_method_chain() {
+    assert_eq!(
+        sp_ok("get"),
+        "def get (self : SP ν) (key : Nat) : Option ν :=
+  match vecGet self.sparse key with
+  | none => none
+  | some idx =>
+    if idx ≥ MAXK then
+      none
+    else
+      (match vecGet self.dense idx with
+      | none => none
+      | some value =>
+        some value)"
+    );
+}
+
+#[test]
+fn resize_scalar_borrow_and_mem_replace() {
+    assert_eq!(
+        sp_ok("insert"),
+        "def insert (self : SP ν) (key : Nat) (value : ν) : SP ν × (Option ν) :=
+  let sparse_idx := key
+  let self :=
+    if sparse_idx ≥ (vecLen self.sparse) then
+      { self with sparse := vecResize self.sparse (sparse_idx + 1) MAXK }
+    else self
+  let dense_len := vecLen self.dense
+  let at1 := sparse_idx
+  match vecGet self.sparse at1 with
+  | none => (self, none)
+  | some dense_idx =>
+    if dense_idx = MAXK then
+      let dense_idx := dense_len
+      let self := { self with sparse := vecSet self.sparse at1 dense_idx }
+      let self := { self with dense := vecPush self.dense value }
+      let self := { self with indices := vecPush self.indices key }
+      (self, none)
+    else
+      let idx := dense_idx
+      let at2 := idx
+      (match vecGet self.dense at2 with
+      | none => (self, none)
+      | some v =>
+        let old1 := v
+        let v := value
+        let self := { self with dense := vecSet self.dense at2 v }
+        (self, some old1))"
+    );
+}
+
+#[test]
+fn replace_through_an_anonymous_borrow_swap_remove_and_element_assignment() {
+    assert_eq!(
+        sp_ok("remove"),
+        "def remove (self : SP ν) (key : Nat) : SP ν × (Option ν) :=
+  let at1 := key
+  match vecGet self.sparse at1 with
+  | none => (self, none)
+  | some dense_idx =>
+    let self := { self with sparse := vecSet self.sparse at1 MAXK }
+    if dense_idx = MAXK then
+      (self, none)
+    else
+      (match vecGet self.dense dense_idx with
+      | none => (self, none)
+      | some res =>
+        let self := { self with dense := vecSwapRemove self.dense dense_idx }
+        let self := { self with indices := vecSwapRemove self.indices dense_idx }
+        let self :=
+          (match vecGet self.indices dense_idx with
+          | some moved_index =>
+            { self with sparse := vecSet self.sparse moved_index dense_idx }
+          | none =>
+            self)
+        (self, some res))"
+    );
+    let out = translate(SP, &sp_opts(&["get", "insert", "remove"])).unwrap();
+    assert!(out.contains("`assume_unchecked(dense_idx < self.dense.len())` (an assumption handed to the optimiser"), "{out}");
+    assert!(out.contains("`assert_ne!( sparse_idx, K::MAX.index(), \"cannot insert\" )`"), "{out}");
+    assert!(out.contains("`self.dense.get_unchecked(idx)` is a checked lookup here"), "{out}");
+    assert!(out.contains("`*unsafe { self.sparse.get_unchecked_mut(moved_index.index()) }` out of range is undefined behaviour"), "{out}");
+    assert!(out.contains("`self.dense.swap_remove(dense_idx)` panics in Rust when the index is ≥ len; here the function returns `None`"), "{out}");
+    assert!(out.contains("`self.indices.swap_remove(dense_idx)` panics in Rust when the index is ≥ len; `vecSwapRemove` is total"), "{out}");
+    assert!(out.contains("the type parameter `K: SparseIndex` of `impl SP` is `Nat`"), "{out}");
+    assert!(out.contains("`K::index(self) -> usize` is taken as `the identity`"), "{out}");
+    assert!(out.contains("`K::MAX: K` is taken as `MAXK`"), "{out}");
+}
+
+#[test]
+fn sparse_map_rejections() {
+    sp_rejected("deref_foreign", "assignment through a dereference");
+    sp_rejected("borrow_foreign_vec", "mutable borrow of an element of a Vec that is not a field of `&mut self`");
+    sp_rejected("shrink", "Vec method as a statement");
+    sp_rejected("trait_fn_not_given", "call of `K::other`, which is neither translated earlier in this run nor given by --prim");
+    sp_rejected("replace_local", "destination of `mem::replace`");
+}
